@@ -243,7 +243,7 @@ class Ctx(object):
         self.gen_status = {}
         self.extra_cov = {}
         self.assumptions = []
-        self.workdir = os.path.join(WORK, pid)
+        self.workdir = os.path.join(WORK, pid, 'run%d' % os.getpid())   # private per run: concurrent runs never clash
         os.makedirs(self.workdir, exist_ok=True)
         kf = os.path.join(ROOT, 'known_findings.json')
         self.known = json.load(open(kf)) if os.path.exists(kf) else {'findings': [], 'fixed': []}
@@ -424,6 +424,11 @@ def run_check(pid, tier, seed, replay=None):
     os.makedirs(os.path.join(ROOT, 'evidence'), exist_ok=True)
     with open(os.path.join(ROOT, 'evidence', pid + '.json'), 'w') as f:
         json.dump(ev, f, indent=1, sort_keys=True, default=str)
+    try:
+        import shutil
+        shutil.rmtree(ctx.workdir, ignore_errors=True)
+    except Exception:
+        pass
     for l in lines:
         print(l)
     print('%s tier=%s seed=%d obligations=%d/%d evaluations=%d distinct=%d wall=%.1fs rc=%d' % (
